@@ -239,11 +239,27 @@ func runC15WriteFaultTCP(c *mon.Case) {
 	}
 	var log []string
 	off := 0
+	probeWrite := rng.Intn(2) == 0
+	probes := 0
 	for guard := 0; off < total && guard < 100; guard++ {
 		n, err := cc.Write(data[off:])
 		log = append(log, fmt.Sprintf("Write(%d)=(%d,%v)", total-off, n, err))
 		off += n
 		for err != nil {
+			// Half of the senders offer the rest again before they
+			// flush: while a record is pending that Write must be
+			// refused (and the sender then flushes); whatever it reports
+			// as written is taken at its word.
+			if probeWrite && off < total {
+				n2, err2 := cc.Write(data[off:])
+				log = append(log, fmt.Sprintf("Write-while-pending(%d)=(%d,%v)", total-off, n2, err2))
+				off += n2
+				probes++
+				if err2 == nil {
+					err = nil
+					break
+				}
+			}
 			var m int
 			m, err = cc.Flush()
 			log = append(log, fmt.Sprintf("Flush=(%d,%v)", m, err))
@@ -268,6 +284,7 @@ func runC15WriteFaultTCP(c *mon.Case) {
 		c.Shard.Violate("contract|T|write-fault", fmt.Sprintf("a %d-byte write interrupted by %d transport write timeouts and resumed with Flush/Write: the reader received %d bytes, first difference at offset %d (sender's account of bytes written: %d): %v", total, fired, len(got), firstDiff(got, data), off, log), rep)
 	}
 	c.Shard.Count("write_fault_transfers_tcp", 1)
+	c.Shard.Count("writes_offered_while_a_record_was_pending", int64(probes))
 	if fired > 0 {
 		c.Shard.Eval(fmt.Sprintf("TF|%d|%d", total, fired))
 	} else {
@@ -650,6 +667,18 @@ func runC15ConnAttempt(c *mon.Case, variant string, attempt int) {
 		nw = 3 + rng.Intn(5) // every record is a real GBN message over the relay
 	}
 	sizes := eng.RandSizesStream(rng, nw, maxW)
+	// Long sequences of small writes: the cipher state rotates its key every
+	// 500 records, so a connection must also be followed across several
+	// rotations (1050..1349 records in one direction).
+	long := (variant == "G" && c.Idx%12 == 0) || (variant == "T" && c.Idx%12 == 3)
+	if long {
+		nw = 1050 + rng.Intn(300)
+		sizes = make([]int, nw)
+		for i := range sizes {
+			sizes[i] = 1 + rng.Intn(60)
+		}
+		c.Shard.Count("long_sequences_across_key_rotations", 1)
+	}
 	if (variant == "T" || variant == "L") && rng.Intn(2) == 0 {
 		sizes[rng.Intn(nw)] = 65536 + rng.Intn(200000)
 	}
@@ -686,6 +715,10 @@ func runC15ConnAttempt(c *mon.Case, variant string, attempt int) {
 		viol = append(viol, s)
 		vmu.Unlock()
 	}
+	// rng is not safe for concurrent use: everything the two goroutines
+	// need from it is drawn before they start.
+	bigLen := 65536 + rng.Intn(3)
+	readerSeed := rng.Int63()
 	var wg sync.WaitGroup
 	wg.Add(2)
 	go func() { // writer
@@ -693,7 +726,7 @@ func runC15ConnAttempt(c *mon.Case, variant string, attempt int) {
 		off := 0
 		for i, sz := range sizes {
 			if i == oversize {
-				big := make([]byte, 65536+rng.Intn(3))
+				big := make([]byte, bigLen)
 				for j := range big {
 					big[j] = 0xEE
 				}
@@ -727,7 +760,7 @@ func runC15ConnAttempt(c *mon.Case, variant string, attempt int) {
 	got := 0
 	go func() { // reader
 		defer wg.Done()
-		br := rand.New(rand.NewSource(rng.Int63()))
+		br := rand.New(rand.NewSource(readerSeed))
 		deadline := time.Now().Add(120 * time.Second)
 		for got < total {
 			if time.Now().After(deadline) {
